@@ -21,7 +21,7 @@ CONFIGS = {
 def circuit_of(job):
     from jaqalpaq.core.circuitbuilder import build
     prog = job['prog']
-    if job['route'] == 'text':
+    if job['route'] in ('text', 'textml'):
         return passes.parse_prog(prog, job.get('text'))
     inject = gates.select([n['v'] for n in prog['natives']]) if prog['natives'] else None
     return build(render.sexpr_prog(prog), inject_pulses=inject)
@@ -66,6 +66,10 @@ def main(tier):
         for n, p in enumerate(progs):
             jobs.append({'id': '%s/%d/text' % (name, n), 'prog': p, 'route': 'text'})
             jobs.append({'id': '%s/%d/builder' % (name, n), 'prog': p, 'route': 'builder'})
+            if p['macros'] and n % 2 == 0:
+                # the same program with its macro definitions written AFTER the body statements (legal when they are not
+                # called before): the generator prints definitions first, so the order of declarations changes on the way
+                jobs.append({'id': '%s/%d/textml' % (name, n), 'prog': p, 'route': 'textml', 'text': render.render_prog(p, macros_last=True)})
             if n % 3 == 0:
                 for q in passes.edge_variants(p, rng):
                     jobs.append({'id': '%s/%d/edge/text' % (name, n), 'prog': q, 'route': 'text'})
@@ -91,7 +95,7 @@ def main(tier):
         if 'witness' in f:
             v = verdicts.get('witness/' + f['id'])
             rep.witness(f['id'], v is not None and f['clause'] in v['clauses'])
-    for route in ('text', 'builder'):
+    for route in ('text', 'builder', 'textml'):
         rs = [r for r in recs if r['id'].endswith('/' + route) or (route == 'text' and r['id'].startswith('witness/'))]
         ids = {r['id'] for r in rs}
         rep.add_validation(route, rs, {k: v for k, v in verdicts.items() if k in ids},
